@@ -19,6 +19,13 @@ def run(ctx):
     tz_histories.run(ctx, camp.add, "C03")       # the same decisions in processes running in other time zones
     camp.eval_model()
     camp.file({"C03"})
+    # a stored value is the from-scratch value only if the engine starts every call once and after all of its dependencies, under every
+    # schedule: a call released twice computes / writes a value while a dependency is still being produced
+    import engine_corr
+    ec = engine_corr.campaign(ctx, set())
+    for prop, key, what, replay in ec.found:
+        if (prop, key) in (("C04", "started-twice"), ("C01", "start-before-deps")):
+            ctx.fail("engine:" + key, what + " (a value computed and stored from there need not be the from-scratch value)", replay)
 
 
 def interrupted_write(ctx, add):
